@@ -35,6 +35,14 @@ def build_graph(case):
             if case.get("big") and i % 4 == 0:
                 o.blob = "b" * 70000
     root = w.objs[case["u"]]
+    # the dump may start anywhere in the graph: the universe, one of its vertices (the universe is then reached through the
+    # vertex), or a link
+    if case.get("root") == "vertex" and root.vertices:
+        root = root.vertices[len(root.vertices) // 2]
+    elif case.get("root") == "link":
+        ls = [l for v in root.vertices for l in v.links]
+        if ls:
+            root = ls[len(ls) // 2]
     if case.get("warm"):
         Vertex.NEIGHBOR_CACHING = True
         for o in w.objs:
@@ -86,7 +94,19 @@ class RoundTrip(Leg):
     def generate(self, rng, n):
         for i in range(n):
             ops, u, vids = R.gen_render_graph(rng)
-            yield {"ops": ops, "u": u, "proto": rng.choice([0, 1, 2, 3, 4, 5, None]), "warm": rng.choice([False, True, "filtered", "filtered"]),
+            if rng.random() < 0.4:      # several / nested / mutually nested universes (a universe is a vertex too)
+                u2 = u + 2
+                ops = ops + [["NU", [v for v in vids if rng.random() < 0.5], None], ["UAV", u, u2]]
+                if rng.random() < 0.4:
+                    ops.append(["UAV", u2, u])
+                if rng.random() < 0.3:
+                    ops.append(["UAV", u, u])
+                if vids and rng.random() < 0.5:
+                    ops.append(["NE", "KDir", rng.choice(vids), u2])
+            if rng.random() < 0.3:      # vertices with value semantics (__eq__ / __hash__ on the uid)
+                ops = [([op[0], 3] + op[2:]) if op[0] == "NV" and len(op) == 4 and rng.random() < 0.7 else op for op in ops]
+            yield {"ops": ops, "u": u, "root": rng.choice(["universe", "universe", "vertex", "link"]),
+                   "proto": rng.choice([0, 1, 2, 3, 4, 5, None]), "warm": rng.choice([False, True, "filtered", "filtered"]),
                    "cache_dump": rng.random() < 0.5, "cache_load": rng.random() < 0.6, "big": rng.random() < 0.2,
                    "fresh": i % 4 == 0}
 
